@@ -88,6 +88,15 @@ func (g *g) script(max int) string {
 
 func (g *g) sub(verb string, script string) { fmt.Fprintf(g.w, "%s script=%s\n", verb, script) }
 
+// subMaybeReal: a share of the ticks run the unmodified loop goroutine (until nothing is pending) instead of the
+// single-iteration hook
+func (g *g) subMaybeReal(verb string, script string, pct int) {
+	if g.r.Chance(pct) {
+		verb += "real"
+	}
+	g.sub(verb, script)
+}
+
 func GenC06(r *hx.Rng, tier string, w io.Writer) {
 	x := &g{w: w, r: r}
 	// corpus: initial height above 1 (recorded finding)
@@ -107,6 +116,18 @@ func GenC06(r *hx.Rng, tier string, w io.Writer) {
 			x.sub(verb, "-")
 		}
 	}
+	// the unmodified loop goroutines: every single answer, then the DA layer accepts; an outage longer than the
+	// attempt bound of a tick; trailing empty blocks (two data ticks)
+	for _, a := range []string{"-", "ok:1", "ok:0|lost:2", "lost|notincluded|inmempool", "toobig|error|canceled|ok:1", strings.TrimSuffix(strings.Repeat("error|", 33), "|")} {
+		x.reset(2, 0)
+		x.produce(false)
+		x.produce(true)
+		x.produce(false)
+		x.produce(true)
+		x.sub("subhreal", a)
+		x.sub("subdreal", a)
+		fmt.Fprintln(w, "incl")
+	}
 	n := 60
 	if tier == "thorough" {
 		n = 900
@@ -124,9 +145,9 @@ func GenC06(r *hx.Rng, tier string, w io.Writer) {
 			case 0, 1, 2:
 				x.produce(r.Chance(35))
 			case 3, 4:
-				x.sub("subh", x.script(4))
+				x.subMaybeReal("subh", x.script(4), 15)
 			case 5, 6:
-				x.sub("subd", x.script(4))
+				x.subMaybeReal("subd", x.script(4), 15)
 			case 7:
 				if r.Bool() {
 					fmt.Fprintln(w, "restart")
@@ -140,8 +161,13 @@ func GenC06(r *hx.Rng, tier string, w io.Writer) {
 				x.produce(false)
 			}
 		}
-		x.sub("subh", "-")
-		x.sub("subd", "-")
+		if i%4 == 1 {
+			x.sub("subhreal", "-")
+			x.sub("subdreal", "-")
+		} else {
+			x.sub("subh", "-")
+			x.sub("subd", "-")
+		}
 	}
 }
 
@@ -235,9 +261,9 @@ func GenC07(r *hx.Rng, tier string, w io.Writer) {
 			case 0, 1, 2:
 				x.produce(r.Chance(40))
 			case 3, 4:
-				x.sub("subh", x.script(3))
+				x.subMaybeReal("subh", x.script(3), 15)
 			case 5, 6:
-				x.sub("subd", x.script(3))
+				x.subMaybeReal("subd", x.script(3), 15)
 			case 7, 8:
 				fmt.Fprintln(w, "incl")
 			case 9:
@@ -256,8 +282,13 @@ func GenC07(r *hx.Rng, tier string, w io.Writer) {
 				}
 			}
 		}
-		x.sub("subh", "-")
-		x.sub("subd", "-")
+		if i%4 == 2 {
+			x.sub("subhreal", "-")
+			x.sub("subdreal", "-")
+		} else {
+			x.sub("subh", "-")
+			x.sub("subd", "-")
+		}
 		if i%7 == 0 {
 			fmt.Fprintln(w, "inclreal")
 		} else {
@@ -275,6 +306,15 @@ func GenC08(r *hx.Rng, tier string, w io.Writer) {
 	}
 	x.sub("subh", "-")
 	x.sub("subd", "-")
+	x.sub("subd", "-")
+	x.produce(true)
+	// every header acknowledged, three empty blocks above the data watermark, no data tick yet: refused although nothing
+	// is waiting for the DA layer (recorded finding: empty blocks are counted until the data loop has passed them)
+	x.reset(1, 3)
+	x.produce(true)
+	x.produce(true)
+	x.sub("subh", "-")
+	x.produce(true)
 	x.sub("subd", "-")
 	x.produce(true)
 	// trailing empty blocks after a non-empty one: passed over by the second accepting data tick
@@ -346,13 +386,13 @@ func GenC08(r *hx.Rng, tier string, w io.Writer) {
 				if r.Chance(30) {
 					x.sub("subh", "ok:1|canceled") // part of the backlog is accepted and acknowledged, then the tick ends
 				} else {
-					x.sub("subh", x.script(2))
+					x.subMaybeReal("subh", x.script(2), 15)
 				}
 			case 5:
 				if r.Chance(30) {
 					x.sub("subd", "ok:1|canceled")
 				} else {
-					x.sub("subd", x.script(2))
+					x.subMaybeReal("subd", x.script(2), 15)
 				}
 			case 6:
 				if r.Chance(35) {
@@ -368,9 +408,14 @@ func GenC08(r *hx.Rng, tier string, w io.Writer) {
 				// the DA layer is back: both loops tick with an accepting DA (the data loop twice: trailing empty
 				// blocks are passed over by the tick after the one that got the data before them accepted), then
 				// production must resume
-				x.sub("subh", "-")
-				x.sub("subd", "-")
-				x.sub("subd", "-")
+				if r.Chance(25) {
+					x.sub("subhreal", "-")
+					x.sub("subdreal", "-")
+				} else {
+					x.sub("subh", "-")
+					x.sub("subd", "-")
+					x.sub("subd", "-")
+				}
 				x.produce(allEmpty)
 			}
 		}
